@@ -786,3 +786,241 @@ func hasPointers(t types.Type, depth int) bool {
 	}
 	return true // pointer, slice, map, chan, func, interface
 }
+
+// R-U-offsets (C12): the offset type U is promised to be wide enough for the
+// input, nothing else. A quantity kept in U that is stepped (x++, x += n) must
+// therefore be an input offset: it has to belong to the class of values that
+// are assigned to, compared with or passed as the cursor (the value indexing
+// the rune buffer). A counter of another kind (tokens, depth, calls) grows
+// with the derivation, not with the input, and wraps for a small U on inputs
+// that fit it.
+func rtUOffsets(a *aggregator, v *rtView) {
+	cfg := v.in.Name
+	info, file := v.in.Info, v.in.File
+	if info == nil || file == nil {
+		a.Und("R-U-offsets", "runtime/quantities kept in the offset type are input offsets", cfg, "", "no type information for this instance")
+		return
+	}
+	isU := func(t types.Type) bool {
+		_, ok := t.(*types.TypeParam)
+		return ok
+	}
+	parent := map[types.Object]types.Object{}
+	var find func(o types.Object) types.Object
+	find = func(o types.Object) types.Object {
+		p, ok := parent[o]
+		if !ok || p == o {
+			parent[o] = o
+			return o
+		}
+		r := find(p)
+		parent[o] = r
+		return r
+	}
+	union := func(x, y types.Object) {
+		if x == nil || y == nil {
+			return
+		}
+		rx, ry := find(x), find(y)
+		if rx != ry {
+			parent[rx] = ry
+		}
+	}
+	originVar := func(o types.Object) types.Object {
+		if vr, ok := o.(*types.Var); ok {
+			return vr.Origin()
+		}
+		return o
+	}
+	// the variable or field an expression of type U denotes (through x+1, x-1, x+U(n), parentheses)
+	var entity func(e ast.Expr) types.Object
+	entity = func(e ast.Expr) types.Object {
+		switch x := e.(type) {
+		case *ast.ParenExpr:
+			return entity(x.X)
+		case *ast.Ident:
+			if o := info.Uses[x]; o != nil {
+				if _, ok := o.(*types.Var); ok && isU(o.Type()) {
+					return originVar(o)
+				}
+			}
+			if o := info.Defs[x]; o != nil {
+				if _, ok := o.(*types.Var); ok && isU(o.Type()) {
+					return originVar(o)
+				}
+			}
+		case *ast.SelectorExpr:
+			if sel := info.Selections[x]; sel != nil && sel.Kind() == types.FieldVal && isU(sel.Obj().Type()) {
+				return originVar(sel.Obj())
+			}
+			if o := info.Uses[x.Sel]; o != nil {
+				if vr, ok := o.(*types.Var); ok && vr.IsField() {
+					if tp := vr.Origin(); isU(tp.Type()) {
+						return tp
+					}
+				}
+			}
+		case *ast.BinaryExpr:
+			if tv, ok := info.Types[x]; ok && isU(tv.Type) && (x.Op == token.ADD || x.Op == token.SUB) {
+				if o := entity(x.X); o != nil {
+					return o
+				}
+				return entity(x.Y)
+			}
+		}
+		return nil
+	}
+	fieldsOf := func(t types.Type) *types.Struct {
+		if p, ok := t.(*types.Pointer); ok {
+			t = p.Elem()
+		}
+		if n, ok := t.(*types.Named); ok {
+			t = n.Origin().Underlying()
+		}
+		s, _ := t.Underlying().(*types.Struct)
+		return s
+	}
+	var cursors []types.Object
+	type step struct {
+		o   types.Object
+		pos token.Pos
+		txt string
+	}
+	var steps []step
+	ast.Inspect(file, func(n ast.Node) bool {
+		switch x := n.(type) {
+		case *ast.AssignStmt:
+			if len(x.Lhs) == len(x.Rhs) {
+				for i := range x.Lhs {
+					union(entity(x.Lhs[i]), entity(x.Rhs[i]))
+					if x.Tok == token.ASSIGN || x.Tok == token.DEFINE {
+						// x = x + n
+						if be, ok := x.Rhs[i].(*ast.BinaryExpr); ok && be.Op == token.ADD {
+							if l, r := entity(x.Lhs[i]), entity(be); l != nil && l == r {
+								steps = append(steps, step{l, x.Pos(), types.ExprString(x.Lhs[i]) + " = " + types.ExprString(x.Rhs[i])})
+							}
+						}
+					}
+				}
+			}
+			if x.Tok == token.ADD_ASSIGN && len(x.Lhs) == 1 {
+				if o := entity(x.Lhs[0]); o != nil {
+					steps = append(steps, step{o, x.Pos(), types.ExprString(x.Lhs[0]) + " += " + types.ExprString(x.Rhs[0])})
+				}
+			}
+		case *ast.IncDecStmt:
+			if o := entity(x.X); o != nil && x.Tok == token.INC {
+				steps = append(steps, step{o, x.Pos(), types.ExprString(x.X) + "++"})
+			}
+		case *ast.ValueSpec:
+			if len(x.Names) == len(x.Values) {
+				for i := range x.Names {
+					union(entity(x.Names[i]), entity(x.Values[i]))
+				}
+			}
+		case *ast.BinaryExpr:
+			switch x.Op {
+			case token.EQL, token.NEQ, token.LSS, token.LEQ, token.GTR, token.GEQ:
+				union(entity(x.X), entity(x.Y))
+			}
+		case *ast.CallExpr:
+			if tv, ok := info.Types[x.Fun]; ok && !tv.IsType() {
+				var sig *types.Signature
+				if se, ok := x.Fun.(*ast.SelectorExpr); ok {
+					if sel := info.Selections[se]; sel != nil {
+						if fn, ok := sel.Obj().(*types.Func); ok {
+							sig, _ = fn.Origin().Type().(*types.Signature)
+						}
+					}
+				}
+				if sig == nil {
+					if id, ok := x.Fun.(*ast.Ident); ok {
+						if fn, ok := info.Uses[id].(*types.Func); ok {
+							sig, _ = fn.Origin().Type().(*types.Signature)
+						}
+					}
+				}
+				if sig == nil {
+					sig, _ = tv.Type.Underlying().(*types.Signature)
+				}
+				if sig != nil {
+					for i, arg := range x.Args {
+						if i < sig.Params().Len() && !(sig.Variadic() && i >= sig.Params().Len()-1) {
+							if p := sig.Params().At(i); isU(p.Type()) {
+								union(entity(arg), originVar(p))
+							}
+						}
+					}
+				}
+			}
+		case *ast.CompositeLit:
+			if tv, ok := info.Types[x]; ok {
+				if st := fieldsOf(tv.Type); st != nil {
+					for i, el := range x.Elts {
+						if kv, ok := el.(*ast.KeyValueExpr); ok {
+							if id, ok := kv.Key.(*ast.Ident); ok {
+								for j := 0; j < st.NumFields(); j++ {
+									if st.Field(j).Name() == id.Name && isU(st.Field(j).Type()) {
+										union(entity(kv.Value), originVar(st.Field(j)))
+									}
+								}
+							}
+						} else if i < st.NumFields() && isU(st.Field(i).Type()) {
+							union(entity(el), originVar(st.Field(i)))
+						}
+					}
+				}
+			}
+		case *ast.IndexExpr:
+			if tv, ok := info.Types[x.X]; ok {
+				if sl, ok := tv.Type.Underlying().(*types.Slice); ok {
+					if b, ok := sl.Elem().Underlying().(*types.Basic); ok && b.Kind() == types.Int32 {
+						if o := entity(x.Index); o != nil {
+							cursors = append(cursors, o)
+						}
+					}
+				}
+			}
+		case *ast.SliceExpr:
+			if tv, ok := info.Types[x.X]; ok {
+				if sl, ok := tv.Type.Underlying().(*types.Slice); ok {
+					if b, ok := sl.Elem().Underlying().(*types.Basic); ok && b.Kind() == types.Int32 {
+						for _, ix := range []ast.Expr{x.Low, x.High} {
+							if ix != nil {
+								if o := entity(ix); o != nil {
+									cursors = append(cursors, o)
+								}
+							}
+						}
+					}
+				}
+			}
+		}
+		return true
+	})
+	if len(cursors) == 0 {
+		a.Und("R-U-offsets", "runtime/quantities kept in the offset type are input offsets", cfg, "", "no value of the offset type indexes the rune buffer: the cursor was not found")
+		return
+	}
+	for _, c := range cursors[1:] {
+		union(cursors[0], c)
+	}
+	root := find(cursors[0])
+	var bad []string
+	seen := map[string]bool{}
+	for _, s := range steps {
+		if find(s.o) == root {
+			continue
+		}
+		k := s.o.Name()
+		if seen[k] {
+			continue
+		}
+		seen[k] = true
+		bad = append(bad, fmt.Sprintf("%s: %s — %s has the offset type but is not an input offset (it is never assigned to, compared with or passed as the cursor)", v.in.srcPos(s.pos), s.txt, s.o.Name()))
+	}
+	sort.Strings(bad)
+	a.Decide(len(bad) == 0 && len(steps) > 0, "R-U-offsets", "runtime/quantities kept in the offset type are input offsets", cfg, "",
+		fmt.Sprintf("%d stepping statement(s) on values of type U: each steps a member of the cursor's class (the values assigned to, compared with or passed as the index into the rune buffer), which the end symbol bounds by the input length", len(steps)),
+		"a counter that grows with the derivation, not with the input, is kept in the offset type: instantiated with a small unsigned type it wraps on inputs that type can hold, and the result depends on U: "+strings.Join(bad, "; "))
+}
